@@ -89,7 +89,8 @@ fn kv_history_body(capacity: usize, depth: usize) {
 #[kani::unwind(6)]
 fn c08_storage_history_capacity_1() { kv_history_body(1, 3); }
 
-// @h prop=C08,C01 tier=thorough kind=main timeout=1750
+// @h prop=C08,C01 tier=experimental kind=main timeout=1750
+// @note out of memory in symbolic execution at capacity 2 / depth 4: NOT decided, never run
 // @bounds ResourceStorage of capacity 2; every history of depth 4
 // @funcs ResourceStorage::{new,remove_and_add}, ResourceController::*
 #[kani::proof]
